@@ -22,7 +22,7 @@ EXTRACT = "coq/C03/Extract_C03.v"
 DRIVER = "props/C03/driver.ml"
 PROGS = {"c03sim": ["props/C03/unit.cpp"]}
 
-MODELLED = ("restraint", "histogram", "extlag", "abmd", "abf")
+MODELLED = ("restraint", "histogram", "extlag", "abmd", "abf", "meta")
 
 # (family, cases quick, cases thorough, history length quick, thorough)
 PLAN = [
@@ -32,8 +32,11 @@ PLAN = [
     ("abmd", 6, 60, 12, 40),
     ("abf", 14, 160, 14, 40),
     ("meta", 14, 160, 14, 40),
+    ("eabf", 6, 60, 12, 40),
+    ("histrestraint", 3, 30, 10, 30),
+    ("runave", 2, 10, 10, 20),
     ("alb", 2, 10, 10, 20),
-    ("opes", 3, 20, 10, 20),
+    ("opes", 4, 30, 12, 24),
 ]
 
 
@@ -41,10 +44,19 @@ def signature(c, f):
     """finding -> signature: kind, family with its distinguishing tags[, observable, when].
     Families / features whose state handling is recorded as a known finding are collapsed to
     kind:family+tags (collapse == "all") or kind:family+tags:when (collapse == "obs")."""
-    st = c.get("sigtags") or []
+    st = list(c.get("sigtags") or [])
+    col = c.get("collapse")
+    if c["fam"] == "opes":
+        # the OPES state is the snapshot taken at the last step on the restart schedule: only stops on that
+        # schedule (and after the first step of the run) can resume exactly
+        K, rf = f.get("K"), c.get("restartfreq", 1)
+        if K is None or K == 0 or K % rf != 0:
+            st.append("off-schedule")
+            col = "all"
+        else:
+            col = None
     fam = c["fam"] + ("".join("+" + t for t in st))
     parts = f["sig"].split(":")          # engine signatures are <kind>:<fam>:<rest...>
-    col = c.get("collapse")
     if col == "all":
         return ":".join([parts[0], fam])
     if col == "obs":
